@@ -74,6 +74,8 @@ func runC17(c *core.Ctx) {
 	c.Rule("R11", "listener registry keyed by identity: the remove function takes out the channel its AddListener registered", 1)
 	c.Rule("R12", "timer service: an iteration's error is the run function's result on every path", 1)
 	c.Rule("R13", "the transition function is an atomic compare-and-set: the state is written ⇔ it equals the expected state, both under one hold of the write lock", 1)
+	c.Rule("R14", "manager queries answer from the decided state: IsHealthy/IsStopped compare it, AwaitHealthy returns nil ⇔ state == healthy", 3)
+	c.Rule("R15", "manager notifications are produced only by the state decision: listener callbacks are built and queued nowhere else; Failure is queued ⇔ the service entered Failed", 2)
 	c.Rule("R10", "failure fan-in: every failure report is delivered with a blocking send", 1)
 	pkg := c.Prog.Pkg("services")
 	if pkg == nil {
@@ -202,6 +204,7 @@ func runC17(c *core.Ctx) {
 	c17Listeners(c, pkg)
 	c17Timer(c, pkg)
 	c17CompareAndSet(c)
+	c17ManagerQueries(c)
 }
 
 // c17Listeners (R11): the listener registry is keyed by identity. AddListener registers a channel it
@@ -1151,4 +1154,147 @@ func c17CompareAndSet(c *core.Ctx) {
 	})
 	oneHold := len(deferred) == 1 && len(unlocks) == 1 && readsAfterLock && g.NodeBefore(locks[0], writes[0])
 	c.Check(res.OK() && oneHold, "R13", "func=BasicService.switchState", fn.Pos(), fmt.Sprintf("state written ⇔ state == from (%s); lock taken once before the comparison and released only by defer: %v (Lock %d, Unlock %d of which deferred %d)", res.Summary(), oneHold, len(locks), len(unlocks), len(deferred)), res.Rows)
+}
+
+// c17ManagerQueries (R14, R15). R8 decides how Manager.state is computed; the property's "healthy exactly
+// while all its services run … reports each failed service once" also needs the queries and the listener
+// notifications to be driven by that decision and nothing else.
+func c17ManagerQueries(c *core.Ctx) {
+	pkg := c.Prog.Pkg("services")
+	for name, want := range map[string]string{"Manager.IsHealthy": "healthy", "Manager.IsStopped": "stopped"} {
+		f := an.FindFunc(pkg, name)
+		if f == nil {
+			c.Miss("R14", "func="+name, "not found")
+			continue
+		}
+		c.Analysed(f.String())
+		var got []string
+		ok := true
+		for _, b := range f.Graph().Blocks {
+			if r := an.ReturnOf(b); r != nil && len(r.Results) == 1 {
+				v := f.Canon(r.Results[0])
+				got = append(got, v)
+				if v != "(recv.state == "+want+")" && v != "("+want+" == recv.state)" {
+					ok = false
+				}
+			}
+		}
+		c.Check(ok && len(got) > 0, "R14", "func="+name, f.Pos(), fmt.Sprintf("answers state == %s: %v", want, got), len(got))
+	}
+	if f := an.FindFunc(pkg, "Manager.AwaitHealthy"); f != nil {
+		c.Analysed(f.String())
+		g := f.Graph()
+		locks := f.CallsTo(false, "sync", "(*Mutex).Lock")
+		var nils, errs []*ast.ReturnStmt
+		if len(locks) == 1 {
+			for _, b := range g.Blocks {
+				if r := an.ReturnOf(b); r != nil && len(r.Results) == 1 && g.NodeBefore(locks[0].Expr, r) {
+					if f.Canon(r.Results[0]) == "nil" {
+						nils = append(nils, r)
+					} else {
+						errs = append(errs, r)
+					}
+				}
+			}
+		}
+		if len(locks) != 1 || len(nils) == 0 || len(errs) == 0 {
+			c.Undec("R14", "func=Manager.AwaitHealthy", f.Pos(), fmt.Sprintf("expected one acquisition of the manager lock followed by a nil return and an error return (%d/%d/%d)", len(locks), len(nils), len(errs)))
+		} else {
+			var targets []an.Loc
+			for _, r := range append(append([]*ast.ReturnStmt{}, nils...), errs...) {
+				targets = append(targets, g.Locate(r))
+			}
+			t := an.Table{G: g, From: g.Locate(locks[0].Expr), FreeUnknown: true, MayOnly: true, Atoms: []an.Atom{{Name: "healthy", Values: []string{"T", "F"}}},
+				Binder: &an.Binder{Fn: f, Eq: map[string]string{"recv.state|healthy": "healthy"}}, Targets: targets,
+				Want: func(r an.Row, i int) an.Tri {
+					if (i < len(nils)) == (r["healthy"] == "F") {
+						return an.F
+					}
+					return an.U
+				}}
+			res := t.Run()
+			c.Check(res.OK(), "R14", "func=Manager.AwaitHealthy", f.Pos(), "after the wake-up, under the lock: nil ⇔ state == healthy, whatever else is counted: "+res.Summary(), res.Rows)
+		}
+	} else {
+		c.Miss("R14", "func=Manager.AwaitHealthy", "not found")
+	}
+	// R15 census: calls of ManagerListener's methods and sends into listener queues
+	var stray []string
+	built := map[string]int{}
+	sends := 0
+	for _, f := range an.Funcs(pkg) {
+		for _, lf := range append([]*an.Fn{f}, f.AllLits()...) {
+			lf := lf
+			for _, call := range lf.Calls(false) {
+				fo := call.Func()
+				if fo == nil {
+					continue
+				}
+				sig, _ := fo.Type().(*types.Signature)
+				if sig == nil || sig.Recv() == nil || !strings.HasSuffix(sig.Recv().Type().String(), "services.ManagerListener") {
+					continue
+				}
+				built[fo.Name()]++
+				// the callback literal must be an argument of notifyListeners, called from serviceStateChanged
+				okSite := false
+				if lf != f && an.FuncDisplay(f.Obj) == "(*Manager).serviceStateChanged" {
+					for _, nc := range f.CallsTo(true, "services", "(*Manager).notifyListeners") {
+						if len(nc.Expr.Args) > 0 && an.InNode(nc.Expr.Args[0], call.Expr) {
+							okSite = true
+						}
+					}
+				}
+				if !okSite {
+					stray = append(stray, fmt.Sprintf("%s called in %s (line %d)", fo.Name(), an.FuncDisplay(f.Obj), c.Prog.Fset.Position(call.Expr.Pos()).Line))
+				}
+			}
+			lf.InspectShallow(func(n ast.Node) bool {
+				if snd, ok := n.(*ast.SendStmt); ok {
+					if t := lf.Info().TypeOf(snd.Value); t != nil && strings.Contains(t.String(), "services.ManagerListener") {
+						sends++
+						if an.FuncDisplay(f.Obj) != "(*Manager).notifyListeners" {
+							stray = append(stray, fmt.Sprintf("callback queued in %s (line %d)", an.FuncDisplay(f.Obj), c.Prog.Fset.Position(snd.Pos()).Line))
+						}
+					}
+				}
+				return true
+			})
+		}
+	}
+	c.Check(len(stray) == 0 && built["Failure"] == 1 && built["Healthy"] == 1 && built["Stopped"] == 1 && sends == 1, "R15", "census:manager-callbacks", pkg.Syntax[0].Pos(),
+		fmt.Sprintf("callbacks built: %v, all as arguments of notifyListeners in serviceStateChanged; queue sends: %d, in notifyListeners only; elsewhere: %v", built, sends, stray), 2)
+	// Failure queued ⇔ to == Failed
+	if f := an.FindFunc(pkg, "Manager.serviceStateChanged"); f != nil {
+		g := f.Graph()
+		var fail *ast.CallExpr
+		for _, nc := range f.CallsTo(false, "services", "(*Manager).notifyListeners") {
+			if lit, ok := nc.Expr.Args[0].(*ast.FuncLit); ok {
+				ast.Inspect(lit, func(n ast.Node) bool {
+					if s, ok := n.(*ast.SelectorExpr); ok && s.Sel.Name == "Failure" {
+						fail = nc.Expr
+					}
+					return true
+				})
+			}
+		}
+		if fail == nil {
+			c.Undec("R15", "func=Manager.serviceStateChanged:failure", f.Pos(), "the notifyListeners call carrying Failure was not found")
+		} else {
+			t := an.Table{G: g, From: g.EntryLoc(), FreeUnknown: false, Atoms: []an.Atom{{Name: "failed", Values: []string{"T", "F"}}},
+				Binder: &an.Binder{Fn: f, Eq: map[string]string{"p2|Failed": "failed"}}, Targets: []an.Loc{g.Locate(fail)}, Names: []string{"queue Failure(s)"},
+				Want: func(r an.Row, _ int) an.Tri { return an.FromBool(r["failed"] == "T") }}
+			res := t.Run()
+			arg := ""
+			if lit, ok := fail.Args[0].(*ast.FuncLit); ok {
+				if lf := f.LitFn(lit); lf != nil {
+					for _, call := range lf.Calls(false) {
+						if call.Func() != nil && call.Func().Name() == "Failure" && len(call.Expr.Args) == 1 {
+							arg = lf.Canon(call.Expr.Args[0])
+						}
+					}
+				}
+			}
+			c.Check(res.OK() && (arg == "p0" || arg == "λp0" || arg == "^p0"), "R15", "func=Manager.serviceStateChanged:failure", fail.Pos(), fmt.Sprintf("Failure(%s) is queued ⇔ the new state is Failed, once per such change: %s", arg, res.Summary()), res.Rows)
+		}
+	}
 }
